@@ -1830,3 +1830,79 @@ PROPS["C11"] = {
     "explanation": "theorems: listing_canonical (the key listing is determined by the RFC-level key state), insert_comm, same_state_same_listing, segment_keys_sorted (every accepted text), parse_is_a_function; static tie: a scan of media_playlist.rs / master_playlist.rs / media_segment.rs / line.rs flags any HashSet/HashMap whose iteration can reach an output (membership-only use is allowed); the runtime part of the property (threads, processes, hash seeds) cannot be exhibited by a model and is executed",
     "assumptions": ["thread scheduling and process hash seeds are sampled, not enumerated (partial by nature)"],
 }
+
+
+# ------------------------------------------------------------------------------------------
+# C17
+
+OWNED_TAGS = ["ExtInf", "ExtXKey", "ExtXMap", "ExtXProgramDateTime", "ExtXDateRange", "ExtXMedia", "ExtXSessionData", "ExtXSessionKey", "VariantStream"]
+OWNED_TYPES = ["ClosedCaptions", "Codecs", "DecryptionKey", "KeyFormat", "StreamData", "Value"]
+
+
+def c17_build(ctx):
+    rng = ctx.rng
+    cases = []
+    for i in range(ctx.n(1200, 24000)):
+        t = G.gen_media(rng, features=ctx.features)[0]
+        cases.append(mk("owned:media", t, group="owned:media", meta={"id": i}))
+        for op, args in (("media", []), ("media_fromstr", []), ("media_builder", ["-"])):
+            cases.append(mk(op, t, *args, group="entry-points", meta={"ep": i}))
+    for i in range(ctx.n(1200, 24000)):
+        cases.append(mk("owned:master", G.gen_master(rng, features=ctx.features)[0], group="owned:master"))
+    for t in corpus_texts():
+        cases.append(mk("owned:media", t, group="corpus")); cases.append(mk("owned:master", t, group="corpus"))
+        for op, args in (("media", []), ("media_fromstr", []), ("media_builder", ["-"])):
+            cases.append(mk(op, t, *args, group="entry-points", meta={"ep": hash(t)}))
+    for name in OWNED_TAGS:
+        for _ in range(ctx.n(150, 3000)):
+            t = rng.choice(TAG_SEEDS[name])
+            if rng.random() < 0.5:
+                t = G.mutate(rng, t)
+            cases.append(mk("owned:tag:" + name, t, group="owned:tag"))
+    for name in OWNED_TYPES:
+        for _ in range(ctx.n(150, 3000)):
+            t = rng.choice(TYPE_SEEDS[name])
+            if rng.random() < 0.5:
+                t = G.mutate(rng, t)
+            cases.append(mk("owned:type:" + name, t, group="owned:type"))
+    # attribute-rich tags so that every Option field is populated at least sometimes
+    for _ in range(ctx.n(400, 8000)):
+        lay = G.Layout(rng)
+        cases.append(mk("owned:tag:ExtXDateRange", G.gen_daterange(rng, lay), group="owned:tag"))
+    return cases
+
+
+def c17_oracle(ctx, cases, impl, model):
+    fails = []
+    eps = {}
+    for c, a in zip(cases, impl):
+        r = C.Resp(a)
+        if r.status == "panic":
+            fails.append(dict(describe(c.line, a), what="panicked", law="no-panic")); continue
+        if c.op.startswith("owned:") and r.status == "ok":
+            o, cl = r.get("O"), r.get("C")
+            if o != "111":
+                names = ["== fails", "observable content differs", "to_string() differs"]
+                bad = [n for n, b in zip(names, o or "000") if b != "1"]
+                fails.append(dict(describe(c.line, a), what="into_owned() of %s: %s" % (c.op[6:], ", ".join(bad)), law="into_owned"))
+            if cl != "111":
+                fails.append(dict(describe(c.line, a), what="clone() of %s changes the value (%s)" % (c.op[6:], cl), law="clone"))
+        if "ep" in c.meta:
+            eps.setdefault(c.meta["ep"], []).append((c, a))
+    for k, items in eps.items():
+        outs = {C.project(a, {"status", "obs", "T", "V", "D"}) for _, a in items}
+        if len(outs) > 1:
+            c, a = items[0]
+            d = describe(c.line, a)
+            d["context_lines"] = [x.line for x, _ in items[1:]]
+            fails.append(dict(d, what="TryFrom<&str>, FromStr and MediaPlaylistBuilder::parse disagree on the same text", law="entry-points"))
+    return fails
+
+
+PROPS["C17"] = {
+    "build": c17_build, "gate": {"status", "obs", "O", "C", "T", "V", "D"}, "oracle": c17_oracle,
+    "nontrivial": lambda c, a: a.startswith("ok"),
+    "rule": "generated media and master playlists, repository fixtures, valid and mutated texts of every tag and attribute type that offers into_owned() (9 tags, 6 types; segments through the playlists), attribute-rich EXT-X-DATERANGE tags; for each accepted value v: v.clone().into_owned() and v.clone() must be ==, have the same observation and the same to_string(); the three media entry points are run on the same texts; non-trivial = accepted value",
+    "explanation": "theorems (over lean/Hls/Generated/IntoOwned.lean, regenerated from the 19 fn into_owned bodies on every run): *_id for all 19 types (into_owned is the identity on observable content), entry_points_agree, owned_same_text; oracle on the implementation: ==, equal observation, equal text for into_owned() and clone(); equal results of TryFrom / FromStr / builder.parse",
+    "assumptions": ["#[derive(Clone)] is structural (trusted)", "the translator recognises only ownership-only wrappers (Cow::Owned(x.into_owned()), .map(..into_owned..), .into_iter().map(..).collect(), plain move); any other expression is reported as a broken tie"],
+}
